@@ -35,7 +35,10 @@ def run(ctx):
     # and the ErasedList functions that receive an element by raw pointer (src/value/list.rs),
     # with the function every script-visible list method hands its DynVal to (src/runtime/basic.rs)
     # and the ownership-relevant decisions of the MIR -> LIR lowering of a block (src/lir/lower.rs)
-    ctx.extract(["glueloops", "listown", "mirlower"])
+    # `glueloopsdrv`: what the driver's glue model runs on — the same text as `glueloops`, or, when
+    # that extraction fails, the definitions last verified, so that the driver still builds and the
+    # search for a failing input does not depend on a driver binary left over from an earlier run
+    ctx.extract(["glueloops", "listown", "mirlower", "glueloopsdrv"])
     built = ctx.build_harness("c03")
     if built:
         emit_dumps(ctx)
